@@ -73,7 +73,7 @@ func divisorShapes() []*big.Int {
 }
 
 func C02(r *eng.Run) {
-	r.Rule = "bounded-exhaustive product: coefficient shapes K x K (x small integers 1..N, x long-division divisor shapes) x 4 sign combinations x {Mul,Quo} x 6 modes at mid-range, " +
+	r.Rule = "bounded-exhaustive product: coefficient shapes K x K (x small integers 1..N, x long-division divisor shapes) x 4 sign combinations x {Mul,Quo} x 6 modes at mid-range, every leading-digit prefix and word-threshold coefficient against a reduced alphabet, dropped-digit steering (A*(10^j+1), A*2^j, A/2^-j with A's low digits set to every sticky-tail pattern), the operation-sequence closure of C01, " +
 		"plus every result decade in windows around the underflow (1e-6215..1e-6170) and overflow (1e6140..1e6185) thresholds, zero/special operands and the DefaultRoundingMode sweep; " +
 		"oracle = exact big-integer product / rational quotient rounded by the specification (tiny rule, overflow rule). Cells as in C01."
 	r.Assumptions = []string{"binary codec is the identity on bits (checked at start; decided by C12)",
